@@ -104,6 +104,12 @@ CHECKS = {
   text="Stored recording = physical events between start and stop, in order, minus the stop key and the truncated tail, plus releases of exactly the keys still down; recorded delays = time to the next event. Replay output = output of typing the same events again from the same state, for time-insensitive and time-sensitive (tap-hold / tap-dance / one-shot) mappings and both replay delay behaviours. The replay ends, nothing is left down, a recording with its own play key does not loop, recording ends by itself at dynamic-macro-max-presses.",
   note="The recording is read through the Debug rendering of Kanata.dynamic_macros (the item type is not nameable from outside). F46 (self-play handled after the replay state was dropped: endless replay) was repaired with a fix: commit; F47 (stop key recorded when the stop action is delayed by a pending decision) is a known finding."),
 
+ "C20": dict(
+  cat="exploration", ref="DESIGN.md §4 C20",
+  technique="proptest-generated zippychord dictionaries and chord press orders; the OS output is replayed into a text-buffer model (characters with shift state, space, backspace) and compared with the text the dictionary promises; proptest shrinking",
+  text="For an entry of a generated dictionary (overlapping chords, chords extending other chords with and without a shared output prefix, follow-up chords, upper/lower case) every chord of its path is pressed in a generated order with small gaps, with or without shift held, followed by more typing: the text left must be exactly the expansion (+ smart space per configuration, removed by punctuation in full mode) followed by the later typing; sequential single-key typing must pass through unchanged; a held shift must be down again after each activation; nothing stays down.",
+  note="F48 (follow-up chord whose first key is in no first chord could never be activated) and F51 (rest of an extended expansion typed with the held shift) were repaired with fix: commits; F50 (a follow-up chord that extends another follow-up chord of the same level) is a known finding. altgr and output-character-mappings are not generated."),
+
  "C17": dict(
   cat="exploration", ref="DESIGN.md §4 C17, Appendix A.4/D",
   technique="model-based property testing: exhaustive schedule enumeration over the tap-dance key and one other key with gaps {0,1,T-1,T,T+1} + proptest-generated longer histories, compared with a reference model of lazy and eager tap-dance",
